@@ -90,7 +90,7 @@ def gen_case(rng):
         rhs = " + ".join(terms) if terms else "0"
         eqs.append(f"{nm} = {rhs} + {shocks[i]};")
     # unit-root block
-    nur = rng.weighted([(0, 5), (1, 3), (2, 1)])
+    nur = rng.weighted([(0, 4), (1, 3), (2, 3), (3, 1)])
     ur_names = []
     for j in range(nur):
         nm = f"z{j}"
@@ -103,6 +103,25 @@ def gen_case(rng):
             eqs.append(f"{nm} = {nm}{{-1}} + {shocks[-1]}" + (f" + 0.5*{rng.choice(names)}" if kind == "rw" else "") + ";")
         nonstat.add(nm)
     all_names = names + ur_names
+    primary = list(ur_names)       # the unit-root variables themselves: one unit root each, so that NO non-zero linear
+                                   # combination of them is stationary (they cannot cointegrate among themselves)
+
+    mirror = []
+
+    def combination(k):
+        """a non-zero combination of k >= 2 primary unit-root variables, mostly with offsetting / equal weights (spread, sum);
+        the same combination with the sign of its last weight flipped is remembered in `mirror` (which of the two has loadings
+        that offset each other depends on the sign normalisation of the Schur vectors)"""
+        zs = rng.sample(primary, k)
+        ws = [rng.choice([1, -1]) for _ in zs] if rng.chance(0.7) else [rng.choice([1, -1, 2, -2, 0.5, -0.5]) for _ in zs]
+        mirror.append(" + ".join(f"{fmt(w)}*{z}" for w, z in zip(ws[:-1] + [-ws[-1]], zs)))
+        return " + ".join(f"{fmt(w)}*{z}" for w, z in zip(ws, zs))
+
+    # a transition variable that is a static combination of several unit-root variables (e.g. the spread z1 - z0)
+    if len(primary) >= 2 and rng.chance(0.5):
+        nm = "s0"
+        eqs.append(f"{nm} = {combination(rng.randint(2, len(primary)))}" + (f" + {rng.choice(names)}" if rng.chance(0.5) else "") + ";")
+        all_names.append(nm); nonstat.add(nm)
     # a stationary variable depending on a unit-root one becomes non-stationary itself
     if ur_names and rng.chance(0.3):
         nm = "v0"
@@ -116,16 +135,24 @@ def gen_case(rng):
         all_names.append(nm)
     # measurement block
     nm_ = rng.weighted([(0, 3), (1, 4), (2, 2)])
+    if len(primary) >= 2:
+        nm_ = max(nm_, rng.weighted([(0, 1), (2, 3)]))
     mnames, mshocks, meqs = [], [], []
     for j in range(nm_):
         nm = f"obs{j}"
         mnames.append(nm)
         terms = []
         has_ns = False
-        for v in rng.sample(all_names, rng.randint(1, min(2, len(all_names)))):
+        if len(primary) >= 2 and (mirror and j == nm_ - 1 or rng.chance(0.5)):
+            # several unit-root variables with offsetting or equal weights: loads on every one of their unit roots;
+            # the last observable mirrors an earlier combination (sum <-> spread)
+            terms.append(mirror[-1] if (mirror and j == nm_ - 1) else combination(rng.randint(2, len(primary))))
+            has_ns = True
+            nonstat.add(nm)
+        for v in rng.sample(all_names, rng.randint(0 if has_ns else 1, min(2, len(all_names)))):
             if v in nonstat:
                 if has_ns:
-                    continue      # two non-stationary terms could cointegrate (e.g. 2*v0 - z0): stationarity would not be known by construction
+                    continue      # a dependant and its unit-root variable could cointegrate (e.g. 2*v0 - z0): stationarity would not be known by construction
                 has_ns = True
                 nonstat.add(nm)
             terms.append(f"{fmt(rng.choice([1, 2, -1, 0.5]))}*{v}")
@@ -427,6 +454,7 @@ def do_cases(ctx: Ctx, cases, with_model=True):
         sol0 = out[0]["sol"]
         ctx.count(f"unit_roots={sol0.num_unit_roots}"); ctx.count(f"num_alpha={sol0.num_alpha}"); ctx.count(f"num_y={sol0.num_y}")
         ctx.count(f"order={case['order']}"); ctx.count(f"variants={len(out)}")
+        ctx.count("combination-of-unit-root-variables=" + str(any(l.count("*z") >= 2 for l in case["source"].split("\n") if l.strip().startswith(("obs", "s0")))))
         ctx.count("forward-looking=" + str("{+1}" in case["source"]))
         for vid, r in enumerate(out):
             oracle(ctx, case, names, r, vid)
